@@ -45,7 +45,8 @@ pub fn aads() -> Vec<Vec<u8>> {
 pub fn blobs() -> Vec<Vec<u8>> {
     vec![b"fixed".to_vec()]
 }
-/// Signers offered to add_*signature: protected headers differ so that signers are distinguishable.
+/// Signers offered to add_*signature: protected headers differ so that signers are distinguishable;
+/// templates 0 and 2 have the same header content in different bytes, 1 and 2 the same key id.
 pub fn signer_templates() -> Vec<RSignature> {
     let s = sig_reps();
     vec![
@@ -53,7 +54,7 @@ pub fn signer_templates() -> Vec<RSignature> {
         RSignature { protected: RProtected::default(), unprotected: s[1].unprotected.clone(), signature: vec![] },
         // a signer that was itself parsed from the wire: its protected bytes are non-canonical
         // (indefinite-length map, non-minimal integer) and must be what is signed and what is kept
-        RSignature { protected: RProtected { original: Some(vec![0xbf, 0x01, 0x38, 0x06, 0xff]), header: headers()[1].clone() }, unprotected: RHeader::default(), signature: vec![] },
+        RSignature { protected: RProtected { original: Some(vec![0xbf, 0x01, 0x38, 0x06, 0xff]), header: headers()[1].clone() }, unprotected: s[1].unprotected.clone(), signature: vec![] },
     ]
 }
 pub const REC_CTX: [EncryptionContext; 4] = [EncryptionContext::EncRecipient, EncryptionContext::MacRecipient, EncryptionContext::RecRecipient, EncryptionContext::CoseEncrypt];
